@@ -131,8 +131,13 @@ theorem push_within : ∀ (x : SVal) (b : B), Within (positions b) (push ext b x
         Within.bind (Within.mono ?_ (pushByteElems_within ext large bs el _)) fun _ _ => Within.of_ok _
       simp only [positions]; exact tail_sub'
     | _ => exact NoCtx.within _
-  | .bool _, b | .int _ _, b | .f32 _, b | .f64 _, b | .char _, b | .str _, b | .unitStruct _, b => by
+  | .bool _, b | .int _ _, b | .f32 _, b | .f64 _, b | .char _, b | .str _, b => by
     unfold push; exact within_ann (self_mem_positions _) (NoCtx.within _)
+  | .unitStruct _, b => by
+    unfold push
+    split
+    · exact within_ann (self_mem_positions _) (NoCtx.within _)
+    · exact pushNone_within b
 theorem pushElems_within : ∀ (xs : SVals) (large : Bool) (el : B) (offs : List Int),
     Within (positions el) (pushElems ext large el offs xs)
   | .nil, large, el, offs => by rw [pushElems]; exact Within.of_ok _
